@@ -180,6 +180,10 @@ func registerRec() {
 				"F":     reflect.ValueOf(rec.F),
 				"P":     reflect.ValueOf(rec.P),
 				"Yield": reflect.ValueOf(rec.Yield),
+				"Par":   reflect.ValueOf(rec.Par),
+				"Seq":   reflect.ValueOf(rec.Seq),
+				"Apply": reflect.ValueOf(rec.Apply),
+				"Fold":  reflect.ValueOf(rec.Fold),
 			},
 		}
 	})
